@@ -1,8 +1,15 @@
 import TmVerif.Model.LRK
+import TmVerif.Proofs.LRCompleteKMain
+import TmVerif.Proofs.LRSoundKAccept
 /-!
 C07 — LALR(k) resolution.
-* Soundness (nothing outside the language is accepted, for every k) is `C01_lr_sound`
-  (Props/C01.lean): it does not depend on how a reduction is chosen.
+* `C01_lr_sound` does NOT apply to tables with lookahead automata: its certificate `certOk`
+  quantifies over `actOf t noDeep`, which is undefined on a deep-lookahead cell, so `certOk` is
+  false for every such table. `C07_lr_sound_k` is the same theorem for the certificate `certKOk`
+  (Model/LRSoundK.lean), which checks every decision a lookahead automaton can produce.
+* `C07_lr_complete_k`: for tables passing the LR(k)-item certificate `complKOk`
+  (Model/LRCompleteK.lean) every sentence is accepted by the runtime's real deep-lookahead decoding;
+  `C07_lr_exact_k`: with both certificates, acceptance ⇔ sentence.
 * The theorems here tie the validator's walk over a lookahead automaton (`trieWalk`, used by
   `checkTries` on every LALR(k) lookahead string of every conflicting rule) to what the generated
   parser does at run time (`deepLA` = `resolveDeepLA`): the validator inspects exactly the decision
@@ -82,5 +89,189 @@ theorem C07_deepLA_result_not_pointer (t : Tables) (inp : Input) :
       | some a => simp only [hl] at h; exact ih (pos + 1) a r h
     · simp only [ha, ↓reduceIte] at h
       cases h; exact ha
+
+/-! ## Soundness, completeness and exactness for tables with deep lookahead -/
+section exact
+open TmVerif.CFG TmVerif.LRSound TmVerif.LRSoundK TmVerif.LRCompleteK
+
+/-- Soundness for tables with lookahead automata: whenever `certKOk g t cert = true`, every run of
+the runtime model (deep lookahead decoded by `deepLA` = `resolveDeepLA`) that ends in `accept` has
+consumed a prefix of the token string that is a sentence of input `i`, the whole string for an
+input with the end-of-input requirement. -/
+theorem C07_lr_sound_k (g : Grammar) (t : Tables) (cert : Cert) (inp : Input) (i fuel : Nat)
+    (c : Cfg) (hc : certKOk g t cert = true)
+    (htok : ∀ tk ∈ inp.toks.toList, 0 < tk.sym ∧ tk.sym < (t.nTerms : Int))
+    (hi : i < g.inputs.size)
+    (hrun : run t inp i fuel = (Result.accept, c)) :
+    ∃ n, n ≤ inp.toks.size ∧
+      Sentence g i ((inp.toks.toList.take n).map (fun tk => tk.sym.toNat)) ∧
+      ((∃ gi, g.inputs[i]? = some gi ∧ gi.eoi = true) → n = inp.toks.size) := by
+  have hcf := certFactsK hc
+  unfold run at hrun
+  cases hfin : t.finalStates[i]? with
+  | none => rw [hfin] at hrun; cases hrun
+  | some fin =>
+    rw [hfin] at hrun
+    simp only at hrun
+    obtain ⟨⟨s, syms, hstk, hst, _⟩, hfs⟩ :=
+      runLoop_acceptK hcf htok hi fin fuel _ c (inv_initK g t i inp) hrun
+    obtain ⟨gi, u, hgi, hD, hcase⟩ := final_yieldK hcf hi hstk fin hfin (by rw [← hst, hfs])
+    have hwf := wfFacts hcf.wf
+    have hgim : gi ∈ g.inputs.toList := by
+      rw [Array.mem_toList_iff]; exact Array.mem_of_getElem? hgi
+    have hu0 : 0 ∉ u :=
+      derives_no_zero hwf hD (by have := (hwf.inputs gi hgim).1; have := hwf.nTermsPos; omega)
+    rcases hcase with ⟨he, hw⟩ | ⟨he, hw⟩
+    · refine ⟨inp.toks.size, Nat.le_refl _, ⟨gi, hgi, ?_⟩, fun _ => rfl⟩
+      rw [← consumed_eoi htok _ u hw hu0]; exact hD
+    · have hm := consumed_no_zero (nshift c.evs) (by rw [hw]; exact hu0)
+      refine ⟨nshift c.evs, hm, ⟨gi, hgi, ?_⟩, ?_⟩
+      · rw [← consumed_le inp _ hm, hw]; exact hD
+      · rintro ⟨gi', hgi', he'⟩
+        rw [hgi] at hgi'
+        injection hgi' with e
+        subst e
+        rw [he] at he'
+        cases he'
+
+/-- Completeness for LALR(k) tables: whenever `complKOk g t k cc = true`, for every token string
+that is a sentence of input `i` the runtime model accepts (with enough fuel) — each reduction that
+needs more than one token of lookahead being chosen by the walk of `resolveDeepLA` over the nested
+lists of the real tables. For an input without the end-of-input requirement the run may stop after
+a shorter prefix (a sentence too, by `C07_lr_sound_k`). -/
+theorem C07_lr_complete_k (g : Grammar) (t : Tables) (k : Nat) (cc : KCert) (inp : Input) (i : Nat)
+    (hc : complKOk g t k cc = true)
+    (htok : ∀ tk ∈ inp.toks.toList, 0 < tk.sym ∧ tk.sym < (t.nTerms : Int))
+    (hsent : Sentence g i (inp.toks.toList.map (fun tk => tk.sym.toNat))) :
+    ∃ fuel c, run t inp i fuel = (Result.accept, c) := by
+  have hf := kFacts hc
+  obtain ⟨gi, hgi, hD⟩ := hsent
+  have hr := LRComplete.reads_take inp inp.toks.size
+  rw [List.take_of_length_le (by simp)] at hr
+  cases heoi : gi.eoi with
+  | true => exact LRCompleteK.accept_eoi hf htok hgi heoi hD hr (by simp)
+  | false => exact LRCompleteK.accept_noeoi hf htok hgi heoi hD hr
+
+/-- Completeness for inputs without the end-of-input requirement: if SOME prefix of the token
+string is a sentence, the runtime model accepts. -/
+theorem C07_lr_complete_k_prefix (g : Grammar) (t : Tables) (k : Nat) (cc : KCert) (inp : Input)
+    (i n : Nat) (gi : GInput) (hc : complKOk g t k cc = true)
+    (htok : ∀ tk ∈ inp.toks.toList, 0 < tk.sym ∧ tk.sym < (t.nTerms : Int))
+    (hgi : g.inputs[i]? = some gi) (heoi : gi.eoi = false)
+    (hsent : Sentence g i ((inp.toks.toList.take n).map (fun tk => tk.sym.toNat))) :
+    ∃ fuel c, run t inp i fuel = (Result.accept, c) := by
+  have hf := kFacts hc
+  obtain ⟨gi', hgi', hD⟩ := hsent
+  rw [hgi] at hgi'
+  injection hgi' with e
+  subst e
+  exact LRCompleteK.accept_noeoi hf htok hgi heoi hD (LRComplete.reads_take inp n)
+
+/-- Exactly the language, for LALR(k) tables: with both certificates the runtime model accepts
+(for some fuel) iff the token string is a sentence (input with end-of-input) resp. has a prefix
+that is a sentence (input without). -/
+theorem C07_lr_exact_k (g : Grammar) (t : Tables) (k : Nat) (cert : Cert) (cc : KCert)
+    (inp : Input) (i : Nat) (gi : GInput)
+    (hs : certKOk g t cert = true) (hc : complKOk g t k cc = true)
+    (htok : ∀ tk ∈ inp.toks.toList, 0 < tk.sym ∧ tk.sym < (t.nTerms : Int))
+    (hgi : g.inputs[i]? = some gi) :
+    (∃ fuel c, run t inp i fuel = (Result.accept, c)) ↔
+      if gi.eoi then Sentence g i (inp.toks.toList.map (fun tk => tk.sym.toNat))
+      else ∃ n, n ≤ inp.toks.size ∧
+        Sentence g i ((inp.toks.toList.take n).map (fun tk => tk.sym.toNat)) := by
+  have hi : i < g.inputs.size := by
+    rcases Nat.lt_or_ge i g.inputs.size with h | h
+    · exact h
+    · rw [Array.getElem?_eq_none h] at hgi; cases hgi
+  constructor
+  · rintro ⟨fuel, c, hrun⟩
+    obtain ⟨n, hn, hsent, hall⟩ := C07_lr_sound_k g t cert inp i fuel c hs htok hi hrun
+    cases heoi : gi.eoi with
+    | true =>
+      have := hall ⟨gi, hgi, heoi⟩
+      subst this
+      rw [List.take_of_length_le (by simp)] at hsent
+      simp only [↓reduceIte]
+      exact hsent
+    | false =>
+      simp only [Bool.false_eq_true, ↓reduceIte]
+      exact ⟨n, hn, hsent⟩
+  · intro h
+    cases heoi : gi.eoi with
+    | true =>
+      rw [heoi] at h
+      simp only [↓reduceIte] at h
+      exact C07_lr_complete_k g t k cc inp i hc htok h
+    | false =>
+      rw [heoi] at h
+      simp only [Bool.false_eq_true, ↓reduceIte] at h
+      obtain ⟨n, _, hsent⟩ := h
+      exact C07_lr_complete_k_prefix g t k cc inp i n gi hc htok hgi heoi hsent
+
+/-! Non-vacuity: the real tables of `lalr.Compile` with `Lookahead: 2` for
+`S: A a c | B T d ; T: a ; A: e ; B: e ;` (terminals 1 `a`, 2 `c`, 3 `d`, 4 `e`; nonterminals 5 `S`,
+6 `A`, 7 `B`, 8 `T`). After `e` the state has the two reductions `A: e` and `B: e`, both followed
+by `a`: its cell on `a` points to a nested list that decides on the second token (`c` → `A: e`,
+`d` → `B: e`; `UsedLADepth = 2`). Both certificates (computed by `mkKCert` / `computePastK`) hold;
+`certOk` of C01 does not; `e a d` and `e a c` are accepted because they are sentences. -/
+private def kG : Grammar :=
+  { nTerms := 5, nSyms := 9,
+    rules := #[⟨5, [6, 1, 2], 0⟩, ⟨5, [7, 8, 3], 0⟩, ⟨8, [1], 0⟩, ⟨6, [4], 0⟩, ⟨7, [4], 0⟩],
+    inputs := #[⟨5, true⟩] }
+private def kT : Tables :=
+  { nTerms := 5, action := #[-1,-3,-1,-1,-1,2,-1,0,1,-1,-2], lalr := #[1,-7,-1,-2,2,3,3,4,-1,-2],
+    goto_ := #[0,2,6,8,10,12,14,16,18,20], fromTo := #[9,10,2,4,3,5,4,7,6,8,0,1,0,9,0,2,0,3,3,6],
+    ruleLen := #[3,3,1,1,1], ruleSymbol := #[5,5,8,6,7], finalStates := #[10] }
+private def kCC : KCert :=
+  { items := #[[⟨0, 0, [[0, 0]]⟩, ⟨1, 0, [[0, 0]]⟩, ⟨3, 0, [[1, 2]]⟩, ⟨4, 0, [[1, 3]]⟩,
+                ⟨5, 0, [[0, 0]]⟩],
+               [⟨3, 1, [[1, 2]]⟩, ⟨4, 1, [[1, 3]]⟩], [⟨0, 1, [[0, 0]]⟩],
+               [⟨1, 1, [[0, 0]]⟩, ⟨2, 0, [[3, 0]]⟩], [⟨0, 2, [[0, 0]]⟩], [⟨2, 1, [[3, 0]]⟩],
+               [⟨1, 2, [[0, 0]]⟩], [⟨0, 3, [[0, 0]]⟩], [⟨1, 3, [[0, 0]]⟩], [⟨5, 1, [[0, 0]]⟩],
+               [⟨5, 2, [[0, 0]]⟩]],
+    first := #[[], [], [], [], [], [[4, 1]], [[4]], [[4]], [[1]]] }
+private def kCert : Cert :=
+  { past := #[[], [4], [6], [7], [1, 6], [1, 7], [8, 7], [2, 1, 6], [3, 8, 7], [5], [0, 5]],
+    reach := #[[10, 8, 7, 6, 5, 4, 3, 2, 9, 1, 0]] }
+private def kInp : Input := { toks := #[⟨4, 0, 1⟩, ⟨1, 1, 2⟩, ⟨3, 2, 3⟩], endOff := 3 }
+
+example : complKOk kG kT 2 kCC = true ∧ (mkKCert kG kT 2).toOption = some kCC ∧
+    certKOk kG kT kCert = true ∧ certOk kG kT kCert = false ∧
+    cellPtr kT 1 1 = some (-7) := by
+  refine ⟨by decide +kernel, by decide +kernel, by decide +kernel, by decide +kernel,
+    by decide +kernel⟩
+
+private theorem kSent : Sentence kG 0 (kInp.toks.toList.map (fun tk => tk.sym.toNat)) :=
+  ⟨⟨5, true⟩, rfl, Derives.rule ⟨5, [7, 8, 3], 0⟩ [4, 1, 3] (by decide)
+    (.cons 7 _ [4] _ (Derives.rule ⟨7, [4], 0⟩ [4] (by decide)
+        (.cons 4 _ [4] _ (.term 4 (by decide)) .nil))
+      (.cons 8 _ [1] _ (Derives.rule ⟨8, [1], 0⟩ [1] (by decide)
+          (.cons 1 _ [1] _ (.term 1 (by decide)) .nil))
+        (.cons 3 _ [3] _ (.term 3 (by decide)) .nil)))⟩
+
+example : ∃ fuel c, run kT kInp 0 fuel = (Result.accept, c) :=
+  C07_lr_complete_k kG kT 2 kCC kInp 0 (by decide +kernel) (by decide +kernel) kSent
+
+/-- the runtime really takes the deep decision: on `e a d` the reduction after `e` is `B: e`
+(rule 4), on `e a c` it is `A: e` (rule 3) -/
+example : (run kT kInp 0 40).1 = Result.accept ∧
+    (run kT kInp 0 40).2.evs.reverse.head? = some (Ev.shift 4 0 1) ∧
+    (run kT kInp 0 40).2.evs.reverse[1]? = some (Ev.reduce 4 0 1) ∧
+    (run kT { kInp with toks := #[⟨4, 0, 1⟩, ⟨1, 1, 2⟩, ⟨2, 2, 3⟩] } 0 40).2.evs.reverse[1]?
+      = some (Ev.reduce 3 0 1) := by
+  refine ⟨by decide +kernel, by decide +kernel, by decide +kernel, by decide +kernel⟩
+
+example : (∃ fuel c, run kT kInp 0 fuel = (Result.accept, c)) ↔
+    Sentence kG 0 (kInp.toks.toList.map (fun tk => tk.sym.toNat)) := by
+  have := C07_lr_exact_k kG kT 2 kCert kCC kInp 0 ⟨5, true⟩ (by decide +kernel)
+    (by decide +kernel) (by decide +kernel) rfl
+  simpa using this
+
+/-- a wrong lookahead automaton is rejected by both certificates' checks where it matters: with the
+two decisions of the nested list swapped (`c` → `B: e`, `d` → `A: e`) condition (R) fails. -/
+example : complKOk kG { kT with lalr := #[1,-7,-1,-2,2,4,3,3,-1,-2] } 2 kCC = false := by
+  decide +kernel
+
+end exact
 
 end TmVerif.LRK
